@@ -708,15 +708,22 @@ func (idx *indexer) indexSince(txID uint64) error {
 						txmd = prevTxHdr.Metadata.Bytes()
 					}
 
-					var kvmd *KVMetadata
+					// metadata read from the tx log is read-only, a new instance is built
+					kvmd := NewKVMetadata()
 
-					if prevEntry.Metadata() != nil {
-						kvmd = prevEntry.Metadata()
-					} else {
-						kvmd = NewKVMetadata()
+					if prevEntry.Metadata() != nil && prevEntry.Metadata().IsExpirable() {
+						expTime, err := prevEntry.Metadata().ExpirationTime()
+						if err != nil {
+							return err
+						}
+
+						err = kvmd.ExpiresAt(expTime)
+						if err != nil {
+							return err
+						}
 					}
 
-					kvmd.AsDeleted(true)
+					err = kvmd.AsDeleted(true)
 					if err != nil {
 						return err
 					}
